@@ -68,7 +68,12 @@ impl From<RaceLaps> for u8 {
                     _ => 0, // if it's an invalid structure we're going to push it into practice
                 }
             },
-            RaceLaps::Hours(data) => data + 190,
+            RaceLaps::Hours(data) => {
+                match data {
+                    1..=48 => data + 190,
+                    _ => 0, // only 1 to 48 hours exist, anything else would alias laps or wrap
+                }
+            },
         };
 
         data as u8
